@@ -396,7 +396,10 @@ func classifyAttributes(receiver *metadata.ReceiverMeta) (classifiedAttributes, 
 	for _, attr := range receiver.Annotations.Attributes() {
 		switch attr.Name {
 		case annotations.GleeceAnnotationRoute:
-			classified.route = attr
+			// A duplicate @Route only earns a warning; the route that counts is the first one, as everywhere else
+			if !routeAttrSeen {
+				classified.route = attr
+			}
 			routeAttrSeen = true
 		case annotations.GleeceAnnotationPath:
 			classified.path = append(classified.path, attr)
